@@ -251,6 +251,21 @@ PROPS["C14"] = dict(
     assumptions=["urlencoding::{encode,decode} as tables", "httparse and serde_bencode not modelled (serde_bencode reads integers as i64: counters above i64::MAX do not parse back)"],
 )
 
+PROPS["C15"] = dict(
+    suites=[dict(name="ws-codec", harness="ws-codec", imports=["WsCodecCheck"], case_type="bool * list ws_codec_case",
+                 check="ws_codec_code", monitor="ws_codec_code", count_quick=160, count_thorough=10000, nontrivial_bits=3, shrink=False)],
+    rule="ws-codec: (a) generated InMessages (announces with every event / none, left absent/0/5/usize::MAX, 0..2 offers, answers, scrapes with "
+         "no / single / empty-array / several hashes; identifiers all-zero, all-0xff, patterned, and one made of quote, backslash, NUL, control "
+         "and 0x7f/0x80 characters; SDP texts with quotes, backslashes, controls, U+2028/9 and non-BMP characters) are written with the real "
+         "to_ws_message, the text is parsed to a tree with serde_json and compared with the model's tree, and must parse back from a text AND a "
+         "binary frame; (b) hand-built JSON objects (identifier strings of length 0,1,19,20,21,25,40 with characters up to U+0100, null / "
+         "missing / wrongly typed / negative fields, unknown fields, malformed offers) parsed by the real from_ws_message vs the model; "
+         "(c) all five OutMessage kinds written and parsed back; non-trivial = a case containing both an accepted and a rejected hand-built text",
+    modelled="TwentyByteVisitor and the serde-derive shape of all messages (WsCodec.v)",
+    assumptions=["serde_json's printer and simd-json's tokenizer are not modelled (bridged with serde_json::Value)",
+                 "numbers are compared as u64; floats and negative numbers count as 'not a number' for every numeric field"],
+)
+
 LEVELS = {
     "C01": dict(
         text="Refinement theorem (Coq, induction over all finite histories, all offsets, any inline capacity): the sequential model of "
@@ -355,6 +370,14 @@ LEVELS["C14"] = dict(
          "after %, writer emits requests its parser rejects). Partial: serde_bencode / httparse are only exercised, not modelled.",
     design_ref="DESIGN.md §7 C14", technique="Coq round-trip / exactness proofs + in-Coq differential check of parser and writers",
     note="Trusted: Coq kernel, model, harness; urlencoding crate as table; third-party parsers untouched (partial).")
+
+LEVELS["C15"] = dict(
+    text="Theorems for all strings and messages: identifier decoding accepts exactly the 20-character strings over U+0000..U+00FF and inverts "
+         "the encoder; every announce (all optional fields, offers, answers) and every scrape form survives the mapping to a JSON tree and "
+         "back through the untagged-enum / Option / unknown-field rules of serde. The original code accepted over-long identifier strings "
+         "(recorded as a fixed finding). Partial: the JSON text layer (printer / tokenizer) is third-party and only exercised.",
+    design_ref="DESIGN.md §7 C15", technique="Coq exactness / round-trip proofs at JSON-tree level + in-Coq differential check bridged by serde_json",
+    note="Trusted: Coq kernel, model, harness, serde_json as the text<->tree bridge; simd-json untouched (partial).")
 
 NOT_APPLICABLE = [
     dict(property_id=p, reason="check not built yet in this round (work in progress; planned per DESIGN.md §10)")
